@@ -121,6 +121,11 @@ Example nonce_witness :
   1 <= lib_nonce 1 (be_bytes 32 1) < secp_n.
 Proof. exact w5_nonce. Qed.
 
+(* finding hex_case_changes_nonce: the nonce is a function of the digest's TEXT — the same digest handed over as
+   upper-case hex (sign('..AB', key)) is signed with a different nonce than as bytes / lower-case hex *)
+Example nonce_hex_case_refuted : lib_nonce 1 w7_dg <> lib_nonce_upper 1 w7_dg.
+Proof. exact w7_hex_case. Qed.
+
 (* --- the verifier is exact: for every digest, every byte string offered as a signature and every public-key
        point, outside the three recorded classes, verify = standard ECDSA on the strictly decoded input;
        None = refused with an exception, Some b = the boolean returned --- *)
